@@ -5,7 +5,9 @@ SELECTORS = [".a", ".btn", "#main", "p", "h1 > span", "a:hover", ".card .title",
              ".x::before", "*", "body", ".é", "div.\\31 23", ".a,.b", "[data-x='}']"]
 LITERAL_TEXT = ["#777", "#777777", "#999", "#aaa", "#666", "#595959", "#fff", "#000", "gray", "grey", "silver", "red", "rgb(120, 120, 120)",
                 "rgb(150,150,150)", "rgba(0, 0, 0, 0.5)", "hsl(0, 0%, 50%)", "hsl(210, 40%, 55%)", "hsla(0, 0%, 20%, 0.6)", "#8a8", "tomato",
-                "#ABC", "RGB(100, 100, 100)", "rgb(50%, 50%, 50%)", "lightgray", "#767676", "#757575", "#6c6c6c", "dimgray"]
+                "#ABC", "RGB(100, 100, 100)", "rgb(50%, 50%, 50%)", "lightgray", "#767676", "#757575", "#6c6c6c", "dimgray",
+                # translucent text whose colour over white and over a dark background are on opposite sides of the target
+                "rgba(255, 255, 255, 0.4)", "hsla(0, 0%, 100%, 0.35)", "rgba(255,255,255,0.45)", "rgba(200, 220, 255, 0.5)"]
 LITERAL_BG = ["#fff", "white", "#000", "#eee", "#222", "rgb(250, 250, 250)", "hsl(0, 0%, 95%)", "#f5f5dc", "navy", "#333333", "#e0e0e0"]
 BAD = ["notacolor", "inherit", "currentColor", "transparent", "#12", "rgb(1,2)", "var(--undefined)", "url(x.png)", "12px", "calc(1px + 2px)"]
 DEFAULT_BGS = ["white", "#fff", "#000000", "black", "#eeeeee", "rgb(20, 20, 20)", "notacolor"]
@@ -48,6 +50,8 @@ def decls(rng, varnames, force_color=None):
         name = "color" if rng.random() < 0.9 else rng.choice(["COLOR", "Color"])
         val = force_color or text_value(rng, varnames)
         imp = " !important" if rng.random() < 0.12 else ""
+        if rng.random() < 0.06:
+            val = val + " /* was: brand */"      # a comment inside the value of the colour declaration
         if rng.random() < 0.12:
             parts.append("color: %s" % rng.choice(LITERAL_TEXT))    # repeated declaration: the last one wins
         parts.append("%s:%s%s%s" % (name, rng.choice(["", " ", "  "]), val, imp))
@@ -132,7 +136,8 @@ def stylesheet(rng, extras=False):
     return "".join(out)
 
 
-CARRY = ["@import url(\"theme.css\") screen;\n", "@font-face { font-family: \"A{B}\"; src: url(\"f;}.woff\") }\n",
+CARRY = ["@layer reset, base, components;\n", "@media print { @layer a, b; .in { color: #777; background-color: #fff } }\n",
+         ".cv { color: #777 /* keep me */; background-color: #fff }\n", "@import url(\"theme.css\") screen;\n", "@font-face { font-family: \"A{B}\"; src: url(\"f;}.woff\") }\n",
          "@keyframes spin { from { transform: rotate(0) } to { transform: rotate(360deg) } }\n", "@page :first { margin: 1in }\n",
          "@unknown-rule foo bar { a: b; c { d: e } }\n", "@namespace svg url(http://www.w3.org/2000/svg);\n", "@layer base, theme;\n",
          "/* a comment with { braces } and ; semicolons */\n", ".esc\\:name { content: \"\\22 quoted\\22\"; margin: 0 }\n",
